@@ -19,7 +19,7 @@ func init() { register(c17{}) }
 
 func (c17) ID() string { return "C17" }
 func (c17) Cases(t fw.Tier) int {
-	return tierN(t, 30000, 1000000)
+	return tierN(t, 150000, 4000000)
 }
 func (c17) Rule() string {
 	return "valid locations (75%): a path of 1-5 steps over EVERY schema-, schema-array- and schema-map-valued field of Schema (found by the harness's own reflection, incl. the items and dependencies unions and the draft-07 fields) x key strings " +
